@@ -1,6 +1,7 @@
 import Soa.Lemmas.Ledger
 import Soa.Props.C01
 import Soa.Lemmas.Transpose
+import Soa.Lemmas.RetainConserve
 /-!
 # C03 — every field value is owned exactly once
 
@@ -267,6 +268,42 @@ theorem extendFromSlice {d : Cols} {k : Nat} (hc : c.lock n) (hd : d.lock k) (hs
   rw [flat_eq_ids]
   exact rows_ids_perm k d hd
 
+/-- **`retain` / `retain_mut`**, on every tree, for every sequence of answers of the callback, every
+    call at which it panics (`boom`) and every write it makes to the element it is shown (`touch`;
+    `retain_mut` only — a write destroys the old field value and stores one the callback created,
+    `made`): afterwards the container and the destroyed values are, as a multiset, what the
+    container held plus what the callback created. -/
+theorem retain (dr : Bool) (c : Cols) (keep : Nat → Bool) (boom : Option Nat) (touch : Nat → Nat → Option (Nat × Nat)) :
+    ((Model.retain dr c keep boom touch).st.flat ++ held (Model.retain dr c keep boom touch) ++
+      (Model.retain dr c keep boom touch).ev.drops).Perm (c.flat ++ (Model.retain dr c keep boom touch).made) := by
+  obtain ⟨mk, dk, hm, hd, hp⟩ := Lp.retainLoop_conserve keep boom touch c.firstLen 0 0 c [] {} []
+  unfold Model.retain
+  dsimp only
+  generalize Model.retainLoop keep boom touch c.firstLen 0 0 c [] {} [] = r at hm hd hp
+  simp only [List.nil_append] at hm
+  have hd' : r.ev.drops = dk := by simpa using hd
+  by_cases hb : r.boom = true
+  · simp only [hb, ↓reduceIte, held, Option.map_none, Option.getD_none, List.append_nil, hm, hd']
+    exact hp
+  · simp only [hb, Bool.false_eq_true, ↓reduceIte]
+    by_cases hdel : r.del > 0
+    · simp only [hdel, ↓reduceIte]
+      have ht := truncate dr r.c (c.firstLen - r.del)
+      unfold Conserves at ht
+      rw [flat_const_nil, List.append_nil] at ht
+      generalize Model.truncate dr r.c (c.firstLen - r.del) = t at ht
+      simp only [held, hm] at ht ⊢
+      rw [Lp.ev_drops_append, hd']
+      -- t.st ++ held t ++ (dk ++ t.drops) ~ (t.st ++ held t ++ t.drops) ++ dk ~ r.c ++ dk ~ c ++ mk
+      refine List.Perm.trans ?_ hp
+      refine List.Perm.trans ?_ (List.Perm.append_right dk ht)
+      simp only [List.append_assoc]
+      refine List.Perm.append_left _ (List.Perm.append_left _ ?_)
+      refine List.Perm.append_left _ ?_
+      exact List.perm_append_comm
+    · simp only [hdel, ↓reduceIte, held, Option.map_none, Option.getD_none, List.append_nil, hm, hd']
+      exact hp
+
 /-- with distinct ids: nothing has two owners, is destroyed twice, or is both returned and
     destroyed — the three lists on the left are pairwise disjoint and duplicate-free -/
 theorem exactly_once {args : Cols} {o : Model.Out} (h : Conserves c args o)
@@ -278,5 +315,11 @@ example : Conserves C01.exC C01.exE (Model.insert false C01.exC 1 C01.exE) :=
   insert false 1 (n := 2) (by simp [C01.exC]) (by simp [C01.exE])
     (by simp [C01.exC, C01.exE, Cols.same, Cols.same.sameL])
 example : (C01.exC.flat ++ C01.exE.flat).Nodup := by decide
+/- `retain_mut` on a 2-element, 4-leaf container: the first element is rejected, the callback overwrites leaf 0
+   of the second one with a value it created (99): 16 and the rejected element are destroyed, 99 is stored -/
+example : (Model.retain false C01.exC (fun i => i != 0) none (fun k _ => if k = 1 then some (0, 99) else none)).made = [99] ∧
+    (Model.retain false C01.exC (fun i => i != 0) none (fun k _ => if k = 1 then some (0, 99) else none)).ev.drops = [16, 8, 9, 10, 11] ∧
+    (Model.retain false C01.exC (fun i => i != 0) none (fun k _ => if k = 1 then some (0, 99) else none)).st.flat = [99, 17, 18, 19] := by
+  decide
 
 end Soa.C03
